@@ -34,7 +34,7 @@ Record Inv3 (s:state) : Prop := {
       alookup i I0 = Some x \/
       (alookup i I0 = None /\ exists v nb, x = Some v /\ ans i = Some v /\ In (EvPrompt i nb true) (trace s));
   k_prompt : forall i nb a, In (EvPrompt i nb a) (trace s) ->
-      alookup i I0 = None /\ nb <> [] /\ (forall f, In f nb -> In i (sireads s f)) /\
+      alookup i I0 = None /\ nb <> [] /\ (forall f, In f nb -> In i (sireads s f) /\ In f (solving s)) /\
       (a = true -> exists v, ans i = Some v /\ alookup i (inp s) = Some (Some v)) /\
       (a = false -> ans i = None /\ refused s = true);
   k_nodup : NoDup (prompted (trace s));
@@ -47,11 +47,11 @@ Proof. intros (A1 & A2 & A3). apply ireads_mono; assumption. Qed.
 
 (* a step that leaves inputs/refused alone and only logs attempts *)
 Lemma Inv3_step s s' :
-  ext s s' -> inp s' = inp s -> refused s' = refused s ->
+  ext s s' -> ssub (solving s) (solving s') -> inp s' = inp s -> refused s' = refused s ->
   (trace s' = trace s \/ exists l, trace s' = l ++ trace s /\ forall e, In e l -> exists f, e = EvAttempt f) ->
   Inv3 s -> Inv3 s'.
 Proof.
-  intros He Ei Er Ht [].
+  intros He Hsol Ei Er Ht [].
   assert (Hin : forall i nb a, In (EvPrompt i nb a) (trace s') -> In (EvPrompt i nb a) (trace s)).
   { destruct Ht as [->|(l & -> & Hl)]; [auto|]. intros i nb a H. apply in_app_or in H as [H|H]; [|exact H].
     destruct (Hl _ H) as [f Hf]. discriminate. }
@@ -65,7 +65,7 @@ Proof.
     split; [exact X|]. exists v, nb. repeat split; auto.
     destruct Ht as [->|(l & -> & Hl)]; [exact Y3|apply in_or_app; right; exact Y3].
   - intros i nb a H. destruct (k_prompt0 i nb a (Hin _ _ _ H)) as (X1 & X2 & X3 & X4 & X5).
-    refine (conj X1 (conj X2 (conj _ (conj X4 X5)))). intros f Hf. apply (sireads_ext s s'); auto.
+    refine (conj X1 (conj X2 (conj _ (conj X4 X5)))). intros f Hf. destruct (X3 f Hf). split; [apply (sireads_ext s s'); auto|auto].
   - destruct Ht as [->|(l & -> & Hl)]; [exact k_clean0|].
     induction l as [|e l IH]; [exact k_clean0|]. cbn [app]. destruct (Hl e (or_introl eq_refl)) as [f ->]. cbn.
     apply IH. intros e' He'. apply Hl. right. exact He'.
@@ -110,6 +110,7 @@ Proof.
   intros HI HK H. destruct (attempt_trace _ _ _ _ H) as (A1 & A2 & l & A3 & A4).
   apply (Inv3_step s s'); auto.
   - eapply attempt_ext; eassumption.
+  - apply (attempt_grows C rank ans _ _ _ _ H).
   - right. eauto.
 Qed.
 
@@ -127,12 +128,13 @@ Proof.
   assert (Habs : alookup i (inp s) = None).
   { destruct (i_iwait _ _ _ _ HI i f0 Hf0) as [X|[X _]]; [contradiction|exact X]. }
   assert (Hnb : unmet_dependents i (idep s) <> [] /\
-                forall f, In f (unmet_dependents i (idep s)) -> In i (sireads s f)).
+                forall f, In f (unmet_dependents i (idep s)) -> In i (sireads s f) /\ In f (solving s)).
   { split.
     - unfold unmet_dependents. destruct (alookup i (unmet (idep s))) as [l0|] eqn:E.
       + apply alookup_in in E. apply (proj2 Hwf i l0 E).
       + apply alookup_none_notin in E. contradiction.
     - intros f Hf. apply unmet_dependents_regs in Hf; [|exact Hwf].
+      split; [|apply (i_iw_sol _ _ _ _ HI i f Hf)].
       destruct (i_iwait _ _ _ _ HI i f Hf) as [X|[_ Y]]; [contradiction|]. apply needi_ireads. exact Y. }
   destruct Hnb as [Hnb1 Hnb2].
   assert (HI0none : alookup i I0 = None).
@@ -157,12 +159,12 @@ Proof.
            split; [exact X|]. exists w, nb. repeat split; auto.
       * intros j nb a [E|Hin].
         -- inversion E; subst. refine (conj HI0none (conj Hnb1 (conj _ (conj _ _)))).
-           ++ intros f Hf. apply (sireads_ext s s1' f j Hext). auto.
+           ++ intros f Hf. destruct (Hnb2 f Hf). split; [apply (sireads_ext s s1' f j Hext); auto|auto].
            ++ intros _. exists v. split; [exact Ea|apply alookup_aset_eq].
            ++ discriminate.
         -- destruct (k_prompt0 j nb a Hin) as (X1 & X2 & X3 & X4 & X5).
            refine (conj X1 (conj X2 (conj _ (conj _ X5)))).
-           ++ intros f Hf. apply (sireads_ext s s1' f j Hext). auto.
+           ++ intros f Hf. destruct (X3 f Hf). split; [apply (sireads_ext s s1' f j Hext); auto|auto].
            ++ intros Ha. destruct (X4 Ha) as (w & W1 & W2). exists w. split; [exact W1|].
               apply (proj1 (proj2 Hext)). exact W2.
       * constructor; assumption.
@@ -275,7 +277,7 @@ Theorem prompts_demand_exact fuel R FN hp r :
   solve C rank fuel R FN I0 hp ans = r ->
   let s := result_state r in
   (forall i nb a, In (EvPrompt i nb a) (trace s) ->
-     alookup i I0 = None /\ nb <> [] /\ (forall f, In f nb -> In i (sireads s f))) /\
+     alookup i I0 = None /\ nb <> [] /\ (forall f, In f nb -> In i (sireads s f) /\ In f (solving s))) /\
   NoDup (prompted (trace s)) /\ clean (trace s).
 Proof.
   intros H s. pose proof (solve_Inv3 _ _ _ _ _ H) as HK. fold s in HK. split; [|split].
